@@ -124,7 +124,11 @@ struct TSolver : public squids::SQuIDS {
   }
   SU_vector poison() const { SU_vector v(P->d); for (int k = 0; k < P->d * P->d; k++) v[k] = 1e6 * (1 + k); return v; }
   SU_vector from(const Mat& M) const { std::vector<ld> c = fromM(M); SU_vector v(P->d); for (int k = 0; k < P->d * P->d; k++) v[k] = (double)c[k]; return v; }
+  // set by a harness around an Evolve call during which nothing may be integrated: a term function that is evaluated anyway is reported at
+  // once (the interval may be astronomically long, so waiting for the integration to finish is not an option)
+  bool forbid_terms = false;
   void note(std::vector<int>& cnt, unsigned ix, unsigned idx, int nidx, double t) const {
+    if (forbid_terms) throw Fail("C10|no-numerics-evolve|term-function-evaluated", fmt("a term function was called at t=%.17g although all numerical terms are disabled", t));
     log.last_this = this;
     if ((int)ix >= P->nx || (int)idx >= nidx) { log.bad_index = true; return; }
     cnt[ix * nidx + idx]++; if (t < log.tmin) log.tmin = t; if (t > log.tmax) log.tmax = t;
